@@ -168,9 +168,22 @@ impl Prop for C05 {
         let mut inbound = inbound;
         // sometimes the stream simply ends inside a frame (peer died mid-send)
         if !fault_free && rng.chance(1, 10) {
-            let extra = gen::gen_frame(rng, mode, &mix, stats);
-            let cut = rng.usize(1, extra.len() - 1);
-            inbound.extend_from_slice(&extra[..cut]);
+            if rng.chance(1, 3) {
+                // ... or after 1..3 stray bytes that could never start a frame: not enough to
+                // tell, the stream has simply ended
+                let first = match mode {
+                    SizeMode::Compressed => 0u8,
+                    SizeMode::Uncompressed => rng.below(4) as u8,
+                };
+                inbound.push(first);
+                for _ in 0..rng.below(3) {
+                    inbound.push(rng.byte());
+                }
+            } else {
+                let extra = gen::gen_frame(rng, mode, &mix, stats);
+                let cut = rng.usize(1, extra.len() - 1);
+                inbound.extend_from_slice(&extra[..cut]);
+            }
         }
         let mut reads = gen::gen_reads(rng, inbound.len(), &ends, &cfg);
         if let Some(edge) = quiet_edge {
